@@ -394,9 +394,7 @@ def _alr_loops(general):
 # the default: no languagesystem statement names the tag -> languages == ["dflt"]
 _alr_contract("dflt-only", Const(["dflt"]), ["C05"])
 # the general case: the languages declared for the tag by languagesystem statements (a list; `languages or ()`)
-# (all obligations discharge, but two of them only after the first 3 s solver round: kept out of the registered check until
-# the engine reads `obj.xs` after `obj.xs.append(..)` as the appended term itself - request filed)
-_alr_contract("script", List(STR), [], general=True)
+_alr_contract("script", List(STR), ["C05"], general=True)
 
 
 def _alr_cases(rng, n):
@@ -419,3 +417,11 @@ def _alr_build(d):
 
 
 CONTRACTS["ufo2ft.featureWriters.ast:addLookupReferences#dflt-only"].runtime = Runtime(_alr_cases, _alr_build)
+
+
+def _alr_cases_general(rng, n):
+    langs = [["dflt"], ["dflt", "TRK "], ["TRK ", "dflt", "AZE "], ["NLD "], [], ["dflt", "dflt"], ["ROM ", "MOL "]]
+    return [{"existing": k % 3, "n_lookups": 1 + k % 4, "script": ["latn", "DFLT", "arab", "dev2"][k % 4], "languages": langs[k % len(langs)]} for k in range(n)]
+
+
+CONTRACTS["ufo2ft.featureWriters.ast:addLookupReferences#script"].runtime = Runtime(_alr_cases_general, _alr_build)
